@@ -1,10 +1,11 @@
 (* Correspondence cases of property C04: a program, its entry point and a list
    of runs (arguments, caller context or None, what fpy2 returned / raised).
-   `check4` decides agreement with the model (`run` of Lang/Sem.v under the
-   number instance named below). *)
+   `check4` decides agreement with the model: `run` of Lang/Sem.v under
+   `lead_numops` (Lang/NumInst2.v), i.e. the proved number model Num/Ctx.v +
+   Num/Arith.v of properties C01/C02. *)
 From Coq Require Import ZArith List Bool String.
 From FpyV Require Import Num.RealFloat Num.Float Num.CtxDef Num.Out
-  Lang.Syntax Lang.Values Lang.Sem Lang.NumInst Lang.PyIR Lang.Compile.
+  Lang.Syntax Lang.Values Lang.Sem Lang.NumInst Lang.NumInst2 Lang.PyIR Lang.Compile.
 Import ListNotations.
 Open Scope Z_scope.
 
@@ -26,7 +27,7 @@ Definition res_eqb (a b : res cval) : bool :=
   end.
 
 Definition model4 (P : program) (f : ident) (r : run4) : res cval :=
-  let '(args, caller, _) := r in run prov_numops P fuel4 f args caller.
+  let '(args, caller, _) := r in run lead_numops P fuel4 f args caller.
 
 Definition check_run4 (P : program) (f : ident) (r : run4) : bool :=
   res_eqb (model4 P f r) (snd r).
